@@ -59,7 +59,8 @@ Target(r) ==
     [] r.ev = "Close" -> Same(pre, post, Fields)
     [] r.ev = "Put" ->
          /\ Same(pre, post, Fields \ {"st"})
-         /\ Prop = "C07" =>
+         \* (a handle on a document that no longer exists can only arise from a wrongful removal: C16's to report)
+         /\ (Prop = "C07" /\ pre.cap # "none") =>
               IF r.path \in {"local", "delete"} /\ pre.cap # "write"
               THEN r.res = "ReadOnly" /\ Same(pre, post, {"st"})
               ELSE /\ r.res \in {"ok", "NewerEntryExists"}        \* write attempts are never refused for capability
@@ -77,13 +78,16 @@ Target(r) ==
               IF pre.cap = "none" THEN r.res # "ok" /\ post.pol = pre.pol
               ELSE r.res = "ok" /\ post.pol = [kind |-> r.kind, filters |-> r.filters]
     [] r.ev = "Remove" ->
-         IF d \in open
-         THEN (Prop = "C16" => r.res = "StillOpen") /\ Same(pre, post, IF Prop = "C16" THEN All ELSE Fields)
-         ELSE /\ Prop = "C16" => (r.res = "ok" /\ Gone(post))
-              /\ Prop = "C07" => post.cap = "none"
-              /\ Prop = "C15" => post.pol = DefaultPolicy
-              /\ Prop = "C17" => post.peers = <<>>
-              /\ Prop = "C18" => post.st = <<>>
+         IF Prop = "C16"
+         THEN IF d \in open THEN r.res = "StillOpen" /\ Same(pre, post, All)
+              ELSE r.res = "ok" /\ Gone(post)
+         ELSE \* whether the removal had to be refused is C16's question; the other properties follow the logged outcome
+              IF r.res = "ok"
+              THEN /\ Prop = "C07" => post.cap = "none"
+                   /\ Prop = "C15" => post.pol = DefaultPolicy
+                   /\ Prop = "C17" => post.peers = <<>>
+                   /\ Prop = "C18" => post.st = <<>>
+              ELSE Same(pre, post, Fields)
 
 Global(r) ==
   /\ Prop \in {"C16"} => ToSet(r.hashes) = UNION {{e.h : e \in St(r.docs[o])} : o \in 1..N}
